@@ -10,6 +10,7 @@ mod c10;
 mod c11;
 mod c12;
 mod c13;
+mod c14;
 mod c15;
 mod c16;
 mod c17;
@@ -37,6 +38,7 @@ fn main() {
         "c11" => c11::run(&args[2..]),
         "c12" => c12::run(&args[2..]),
         "c13" => c13::run(&args[2..]),
+        "c14" => c14::run(&args[2..]),
         "c15" => c15::run(&args[2..]),
         "c16" => c16::run(&args[2..]),
         "c17" => c17::run(&args[2..]),
